@@ -88,7 +88,7 @@ def api_init_graph(res, rng, metric, kind, wide=False):
             return
 
 
-def api_good_init(res, rng, metric, sparse=False, p=None):
+def api_good_init(res, rng, metric, sparse=False, p=None, zero_rows=False):
     """a GOOD supplied graph (exact k-NN) with a few unknown (-1) entries, one of them in row 0, and no refinement: whatever the
     construction does, no supplied neighbour may be lost (random initialisation cannot rediscover them)"""
     from scipy.spatial.distance import cdist
@@ -96,6 +96,8 @@ def api_good_init(res, rng, metric, sparse=False, p=None):
     X = rng.standard_normal((n, dim)).astype(np.float32)
     if sparse:
         X = (X * (rng.random((n, dim)) < 0.7)).astype(np.float32); X[~X.any(axis=1), 0] = 1.0
+        if zero_rows:
+            X[[5, 77, 141]] = 0.0                       # rows with nothing stored: their supplied neighbours count like any other row's
     D = cdist(X.astype(np.float64), X.astype(np.float64), {"euclidean": "euclidean", "manhattan": "cityblock", "minkowski": "minkowski"}[metric],
               **({"p": p} if p else {}))
     G = np.argsort(D, axis=1)[:, :k].astype(np.int32)
@@ -107,7 +109,7 @@ def api_good_init(res, rng, metric, sparse=False, p=None):
                     random_state=int(rng.integers(10 ** 6)), init_graph=G, n_iters=0)
     inds, dists = idx.neighbor_graph
     case = {"metric": metric, "sparse": sparse, "p": p, "n": n, "k": k, "init": "exact k-NN with a -1 hole in row 0", "n_iters": 0}
-    res.case(("good-init", metric, sparse, X.tobytes()[:64]), True, sample=case); res.count("api_good_init"); res.traces += 1
+    res.case(("good-init", metric, sparse, zero_rows, X.tobytes()[:64]), True, sample=case); res.count("api_good_init"); res.traces += 1
     for i in range(n):
         before = sorted(float(D[i, q]) for q in G[i] if q >= 0)
         after = sorted(float(d) for d, q in zip(dists[i], inds[i]) if q >= 0)
@@ -201,6 +203,7 @@ def run(res, tier, seed, search):
         api_init_graph(res, rng, "dot", "dense32", wide=(r == 0))
     api_init_graph(res, rng, "minkowski", "csr")          # metric arguments must reach the seeding of a CSR index too
     api_good_init(res, rng, "minkowski", sparse=True, p=3.0)
+    api_good_init(res, rng, "euclidean", sparse=True, zero_rows=True)
     api_good_init(res, rng, "euclidean")
     if tier != "quick":
         api_good_init(res, rng, "manhattan")
